@@ -447,10 +447,11 @@ class CoreEnforcer:
 
         if "g" in self.model.keys():
             for key, ast in self.model["g"].items():
-                if len(self.rm_map) != 0:
-                    functions[key] = generate_g_function(ast.rm)
-                if len(self.cond_rm_map) != 0:
+                # each role function answers from the manager of its own definition (plain or conditional)
+                if key in self.cond_rm_map:
                     functions[key] = generate_conditional_g_function(ast.cond_rm)
+                elif len(self.rm_map) != 0:
+                    functions[key] = generate_g_function(ast.rm)
 
         if len(rvals) != 0:
             if isinstance(rvals[0], EnforceContext):
